@@ -686,6 +686,7 @@ func c13Run(c *Ctx, cs c13Case) {
 	case "stress-close":
 		// seeded stress: receiver, sender and feeder run while Close is called
 		rnd := rt.NewRand(c.Seed, fmt.Sprintf("c13/stress/%d/%d", cs.Fill, cs.Rep))
+		srnd := rt.NewRand(c.Seed, fmt.Sprintf("c13/stress/%d/%d/sender", cs.Fill, cs.Rep))
 		ctx, cancel := context.WithCancel(context.Background())
 		defer cancel()
 		var wg sync.WaitGroup
@@ -713,7 +714,7 @@ func c13Run(c *Ctx, cs c13Case) {
 			defer wg.Done()
 			guard(func() {
 				for i := 0; ctx.Err() == nil && i < 200; i++ {
-					if err := e.ch.SendPackage(ctx, &tds.LanguagePackage{Cmd: strings.Repeat("s", rnd.Range(1, 1200))}); errors.Is(err, tds.ErrChannelClosed) {
+					if err := e.ch.SendPackage(ctx, &tds.LanguagePackage{Cmd: strings.Repeat("s", srnd.Range(1, 1200))}); errors.Is(err, tds.ErrChannelClosed) {
 						return
 					}
 				}
